@@ -221,12 +221,13 @@ def sorted_product_sum(a: list[int], b: list[int]) -> int:
 @st.composite
 def qap_matrices(draw: Any, min_n: int = 1, max_n: int = 8) -> dict:
     """{"n","flows","dists","cls","d_dtype","f_dtype"} with upper bound < 10^15."""
-    n = draw(st.integers(min_n, max_n))
-    if draw(st.integers(0, 3)) == 0:
-        n = draw(st.integers(min_n, min(max_n, 4)))
+    sizes = [v for v in range(min_n, max_n + 1)
+             for _ in range(1 if v <= 1 else (2 if v == 2 else 3))]
+    n = draw(st.sampled_from(sizes))
     n2 = n * n
     cls = draw(st.sampled_from(["bin", "small", "mixed", "mixed", "const",
-                                "edge", "edge", "big", "zero_diag"]))
+                                "edge", "edge", "big", "zero_diag",
+                                "one_zero"]))
     if cls == "edge":
         # one side 0/1, the other small; then the largest entry of the other
         # side is raised so that the bound hits a target next to a type limit
@@ -248,7 +249,7 @@ def qap_matrices(draw: Any, min_n: int = 1, max_n: int = 8) -> dict:
         else:
             fl, di = other, ones
     else:
-        sub = "mixed" if cls == "zero_diag" else cls
+        sub = "mixed" if cls in ("zero_diag", "one_zero") else cls
         fcap = draw(st.sampled_from([1, 9, 126, 1000, 10 ** 5, 10 ** 7]))
         dcap = max(1, (QAP_LIMIT - 1) // (fcap * n2))
         dcap = min(dcap, draw(st.sampled_from([1, 9, 126, 300, 40000,
@@ -262,6 +263,17 @@ def qap_matrices(draw: Any, min_n: int = 1, max_n: int = 8) -> dict:
             for i in range(n):
                 fl[i * n + i] = 0
                 di[i * n + i] = 0
+        if cls == "one_zero":
+            # one matrix identically zero (all bounds are 0), the other one
+            # with at least one entry beyond int8 / int16
+            big = draw(st.sampled_from([128, 200, 256, 40000, 70000,
+                                        2 ** 31, 10 ** 12]))
+            if draw(st.booleans()):
+                fl = [0] * n2
+                di[draw(st.integers(0, n2 - 1))] = big
+            else:
+                di = [0] * n2
+                fl[draw(st.integers(0, n2 - 1))] = big
     flows = [fl[i * n:(i + 1) * n] for i in range(n)]
     dists = [di[i * n:(i + 1) * n] for i in range(n)]
     mxd, mxf = max(di), max(fl)
